@@ -534,3 +534,10 @@ Proof. intros HK. apply no_photon_created_of; auto.
 Corollary perfect_detection_creates_no_photon U m mix :
   no_photon_created (SelectX.spec_dist U m) (SamplingX.det_kernel []) mix.
 Proof. apply unitary_spec_creates_no_photon. intros t u w [H|[]]. injection H as <- _. lia. Qed.
+
+(* with no photon filter the sampler draws its inputs from the WHOLE mixture, the vacuum members included
+   (sample(i, non_null=False) in _prepare_provider); in general exactly the members holding >= F photons *)
+Lemma prefilter_zero mix : prefilter 0 mix = mix.
+Proof. unfold prefilter. induction mix as [|pg mix IH]; simpl; auto. f_equal. exact IH. Qed.
+Lemma prefilter_spec F mix pg : In pg (prefilter F mix) <-> In pg mix /\ (F <= gtotal (snd pg))%nat.
+Proof. unfold prefilter. rewrite filter_In, Nat.leb_le. tauto. Qed.
